@@ -1112,7 +1112,7 @@ func c03Ambient(p *Prog, r *Report, s *ssaProg) {
 // path expression that is read from disk (no normalisation that can merge two
 // distinct files into one slot).
 func c03PoolKey(p *Prog, r *Report) {
-	r.Rule("C03.R2c", "cache key identity: in the file pool every index of the map is the same expression as the path handed to the file read, so two distinct files can never share a slot (a run never receives another file's bytes from the session cache)", 3)
+	r.Rule("C03.R2c", "cache key identity: in the file pool every index of the map is the same expression as the path handed to the file read, so two distinct files can never share a slot (a run never receives another file's bytes from the session cache); the file is read exactly on a miss, the bytes read are the ones stored, a failed read ends the run, the map is created only when nil", 7)
 	fi := p.Funcs["hermes.FilePool.Get"]
 	if fi == nil {
 		r.Ob("Get", "-", false, "hermes.FilePool.Get not found")
@@ -1178,4 +1178,95 @@ func c03PoolKey(p *Prog, r *Report) {
 	if n == 0 {
 		r.Ob("key", "-", false, "the pool's map is never indexed")
 	}
+	// load on miss: the file is read exactly when the key is absent, the bytes read are what is stored, a failed read ends the run
+	var readCall *ast.CallExpr
+	var readStmt *ast.AssignStmt
+	ast.Inspect(fi.Decl.Body, func(m ast.Node) bool {
+		if as, ok := m.(*ast.AssignStmt); ok && len(as.Rhs) == 1 {
+			if call, ok := as.Rhs[0].(*ast.CallExpr); ok && call.Pos() == readPos {
+				readCall, readStmt = call, as
+			}
+		}
+		return true
+	})
+	if readCall == nil || len(readStmt.Lhs) != 2 {
+		r.Ob("load-on-miss", p.Pos(readPos), false, "the file read is not bound to (data, err)")
+		return
+	}
+	dataObj, errObj := useObj(info, readStmt.Lhs[0]), useObj(info, readStmt.Lhs[1])
+	conds, loops := astPathConds(info, fi.Decl.Body, readCall)
+	miss := len(conds) == 1 && len(loops) == 0
+	for _, c := range conds {
+		o := useObj(info, c.E)
+		good := false
+		if o != nil && c.Neg {
+			for _, d := range defsOf(info, fi.Decl.Body, o) {
+				if ie, ok := stripParens(d.Rhs).(*ast.IndexExpr); ok && d.Idx == 1 && fieldOf(info, ie.X) == "list" && canon(ie.Index, 0) == readArg {
+					good = true
+				}
+			}
+		}
+		if !good {
+			miss = false
+		}
+	}
+	r.Ob("load-on-miss", p.Pos(readPos), miss, fmt.Sprintf("the file is read under [%s] (must be exactly 'the key is not in the pool': reading when present makes the result depend on whether an earlier run cached the file, not reading when absent hands out nothing)", joinConds(conds)))
+	okErr, why := errorLeadsToExit(info, fi.Decl.Body, readCall)
+	r.Ob("read-error-exit", p.Pos(readPos), okErr, fmt.Sprintf("a failed read ends the run instead of caching empty bytes for every later run: %v %s", okErr, why))
+	stored := false
+	det := "the bytes read are never stored in the pool"
+	ast.Inspect(fi.Decl.Body, func(m ast.Node) bool {
+		as, ok := m.(*ast.AssignStmt)
+		if !ok || len(as.Lhs) != 1 || len(as.Rhs) != 1 {
+			return true
+		}
+		ie, ok := as.Lhs[0].(*ast.IndexExpr)
+		if !ok || fieldOf(info, ie.X) != "list" {
+			return true
+		}
+		sc, _ := astPathConds(info, fi.Decl.Body, as)
+		extra := ""
+		for _, c := range sc {
+			if c.Neg && c.Exit != nil && isNilCmp(info, c.E, errObj, token.NEQ) {
+				continue
+			}
+			isMiss := false
+			for _, rc := range conds {
+				if rc.Neg == c.Neg && types.ExprString(rc.E) == types.ExprString(c.E) {
+					isMiss = true
+				}
+			}
+			if !isMiss {
+				extra += c.String() + " "
+			}
+		}
+		stored = useObj(info, as.Rhs[0]) == dataObj && dataObj != nil && extra == "" && as.Pos() > readCall.Pos()
+		det = fmt.Sprintf("pool[%s] = %s under [%s]", canon(ie.Index, 0), types.ExprString(as.Rhs[0]), joinConds(sc))
+		return true
+	})
+	r.Ob("store-what-was-read", p.Pos(readPos), stored, det+" (must store the bytes just read, on the miss path only)")
+	// lazy initialisation of the map
+	initOK := false
+	initDet := "no initialisation of the pool's map"
+	ast.Inspect(fi.Decl.Body, func(m ast.Node) bool {
+		as, ok := m.(*ast.AssignStmt)
+		if !ok || len(as.Lhs) != 1 || fieldOf(info, as.Lhs[0]) != "list" {
+			return true
+		}
+		if _, isSel := as.Lhs[0].(*ast.SelectorExpr); !isSel {
+			return true
+		}
+		ic, _ := astPathConds(info, fi.Decl.Body, as)
+		initOK = len(ic) == 1 && !ic[0].Neg && as.Pos() < readCall.Pos()
+		if initOK {
+			be, ok := stripParens(ic[0].E).(*ast.BinaryExpr)
+			initOK = ok && be.Op == token.EQL && fieldOf(info, be.X) == "list" && types.ExprString(stripParens(be.Y)) == "nil"
+		}
+		if c, ok := as.Rhs[0].(*ast.CallExpr); !ok || types.ExprString(c.Fun) != "make" {
+			initOK = false
+		}
+		initDet = fmt.Sprintf("map created under [%s]", joinConds(ic))
+		return true
+	})
+	r.Ob("lazy-init", p.Pos(fi.Decl.Pos()), initOK, initDet+" (must be exactly 'the map is nil', before the lookup: creating it otherwise throws the cache away)")
 }
